@@ -51,7 +51,8 @@ void run_lexer(const char *input) {
 
 /* one representative of every character class the recognisers distinguish */
 static const unsigned char alpha24[] = { 'A', 'e', 'z', '0', '1', '7', '9', ' ', '\t', '\n', '\r', '#', 'H', 'b', 'q',
-                                         '"', '\'', '(', ')', ',', ';', ':', '*', '?' };
+                                         '"', '\'', '(', ')', ',', ';', ':', '*', '?', '+', '-', '.', '/' };
+#define NALPHA 28
 static const unsigned char extra[] = { '+', '-', '.', '/', '_', '!', '@', 0x00, 0x80, 0xFF, 'E', 'F', 'g', 'Q', '2', '8', '$' };
 
 static void emit(const unsigned char *s, size_t n, unsigned pos) {
@@ -73,10 +74,10 @@ void dom_lexer(void) {
     unsigned char s[64]; int L = h_thorough ? 5 : 4, len, i; unsigned long idx, total;
     /* exhaustive: all strings up to length L over the class alphabet */
     for (len = 0; len <= L; len++) {
-        total = 1; for (i = 0; i < len; i++) total *= 24;
+        total = 1; for (i = 0; i < len; i++) total *= NALPHA;
         for (idx = 0; idx < total; idx++) {
             unsigned long r = idx;
-            for (i = 0; i < len; i++) { s[i] = alpha24[r % 24]; r /= 24; }
+            for (i = 0; i < len; i++) { s[i] = alpha24[r % NALPHA]; r /= NALPHA; }
             emit(s, (size_t) len, 0);
         }
     }
@@ -84,7 +85,7 @@ void dom_lexer(void) {
     { unsigned long n = h_thorough ? 4000000 : 250000;
       for (; n; n--) {
           len = 1 + (int) h_below(h_thorough ? 9 : 8);
-          for (i = 0; i < len; i++) s[i] = h_chance(75) ? alpha24[h_below(24)] : extra[h_below(17)];
+          for (i = 0; i < len; i++) s[i] = h_chance(75) ? alpha24[h_below(NALPHA)] : extra[h_below(17)];
           emit(s, (size_t) len, h_chance(60) ? 0 : h_below((unsigned) len + 1));
       } }
     /* grammar-directed: concatenations of fragments, cut at a random point */
